@@ -86,6 +86,12 @@ Theorem C04_merge_list_elementwise : forall ol l r, upd_m (PL ol) (ML true l) = 
 Proof. exact merge_list_elementwise. Qed.
 Print Assumptions C04_merge_list_elementwise.
 
+(* ... and without any !merge mark it is exactly the right-biased recursive update of C02 (so C04_merge_marks_refine contains
+   C02_fold, for documents with arbitrary safety marks) *)
+Theorem C04_without_marks_is_plain_update : forall m a, no_merge m = true -> upd_m a m = upd a (mforget m).
+Proof. exact upd_m_plain. Qed.
+Print Assumptions C04_without_marks_is_plain_update.
+
 (* membership in the class is decidable (so the check can report, for every generated document, whether the theorem applies) *)
 Theorem C04_class_checker_sound : forall n, newt_b n = true -> NewT n.
 Proof. exact newt_b_ok. Qed.
